@@ -130,7 +130,7 @@ PARAM_TOL = 1e-3  # relative to the parameter's natural scale
 # cost has secondary optima inside the +-30 % box (observed: 'trf' ends with
 # gtol satisfied at hurst -> 1).  Outside this configuration only the
 # monotone-cost assertion and all state assertions apply.
-SMIN = 0.1
+SMIN = 0.03
 MAX_SHAPE = 1
 GTOL = 1e-8  # scipy default handed through by fit_variogram
 
@@ -381,7 +381,11 @@ def gen_fit(draw, tier="quick", mode="iso", kind="recover"):
     # ---- status of every parameter
     stat = {}
     for nm in names:
-        stat[nm] = draw(st.sampled_from(["fit"] * 6 + ["off"] * 2 + ["fix"] * 2))
+        if nm in ("var", "len_scale", "nugget") or wild:
+            stat[nm] = draw(st.sampled_from(["fit"] * 6 + ["off"] * 2 + ["fix"] * 2))
+        else:
+            # 'recover_*' aims at the identifiable configuration: shape parameters mostly prescribed
+            stat[nm] = draw(st.sampled_from(["fit"] * 3 + ["off"] * 3 + ["fix"] * 4))
     if mode == "dir":
         anis_mode = draw(st.sampled_from(["fit", "fit", "off", "fix"]))
     else:
@@ -625,6 +629,10 @@ def gen_fit(draw, tier="quick", mode="iso", kind="recover"):
         weights["c"] = draw(logfloat(0.1, 10.0))
     if wk == "list" and mode == "dir" and KNOWN["weights_list_directional"]:
         weights["kind"] = "array"  # excluded by construction (finding); probed in 'errors'
+    loss = draw(st.sampled_from(["soft_l1", "soft_l1", "linear", "linear", "huber"]))
+    w_max = max(weights["w"]) if "w" in weights else weights.get("c", 1.0)
+    if loss != "linear" and not wild and NEAR * sill_t * w_max > 1.0 and draw(st.integers(0, 3)) != 0:
+        loss = "linear"  # robust losses are mostly exercised in their quadratic regime (see robust_ok)
     case = {
         "mode": mode,
         "truth": truth,
@@ -637,7 +645,7 @@ def gen_fit(draw, tier="quick", mode="iso", kind="recover"):
         "init_guess": init_guess,
         "weights": weights,
         "method": draw(st.sampled_from(["trf", "trf", "dogbox"])),
-        "loss": draw(st.sampled_from(["soft_l1", "soft_l1", "linear", "linear", "huber"])),
+        "loss": loss,
         "max_eval": draw(st.sampled_from([None, None, None, 5000])),
         "return_r2": draw(st.sampled_from([True, True, True, False])),
         "y2d": draw(st.booleans()),
